@@ -1093,19 +1093,32 @@ func runC13ByPos(c *Ctx) {
 				return
 			}
 			n++
-			// entries[k].val with a constant k
-			for _, ref := range *call.Referrers() {
-				ia, ok := ref.(*ssa.IndexAddr)
-				if !ok {
-					continue
+			// entries[k].val with a constant k (or len-k): directly, or through a copy of the entry (a local, a phi, a
+			// variable whose address is taken, an argument of a helper)
+			slices := map[ssa.Value]bool{call: true}
+			for changed := true; changed; {
+				changed = false
+				for v := range slices {
+					for _, ref := range *v.Referrers() {
+						switch x := ref.(type) {
+						case *ssa.Phi, *ssa.Slice, *ssa.ChangeType:
+							if !slices[x.(ssa.Value)] {
+								slices[x.(ssa.Value)] = true
+								changed = true
+							}
+						}
+					}
 				}
-				if _, isConst := ia.Index.(*ssa.Const); !isConst {
-					continue
-				}
-				for _, r2 := range *ia.Referrers() {
-					if fa, ok := r2.(*ssa.FieldAddr); ok && fieldAddrName(fa) == "workflowKeyVal.val" {
+			}
+			for sl := range slices {
+				for _, ref := range *sl.Referrers() {
+					ia, ok := ref.(*ssa.IndexAddr)
+					if !ok || ia.X != sl || !positionalIndex(ia.Index, slices) {
+						continue
+					}
+					if at := entryValueRead(ia, map[ssa.Value]bool{}, 0); at != nil {
 						bad++
-						c.bad(FuncName(fn)+"|value of a mapping entry picked by position", ia.Pos(), "the value is taken from entry "+symName(ia.Index)+" of the mapping: with a foreign key next to it the value of the known key is not parsed (or the wrong one is), so its diagnostics are lost")
+						c.bad(FuncName(fn)+"|value of a mapping entry picked by position", ia.Pos(), "the value is taken from entry "+symName(ia.Index)+" of the mapping (read at "+p.Pos(at.Pos())+"): with a foreign key next to it the value of the known key is not parsed (or the wrong one is), so its diagnostics are lost")
 					}
 				}
 			}
@@ -1118,6 +1131,78 @@ func runC13ByPos(c *Ctx) {
 	if bad == 0 {
 		c.ok("parse.go|values of mapping entries are reached through the key loop", token.NoPos, fmt.Sprintf("%d parseMapping results: no value picked by a constant index", n))
 	}
+}
+
+// positionalIndex: a constant, or len(entries) minus a constant.
+func positionalIndex(ix ssa.Value, slices map[ssa.Value]bool) bool {
+	switch x := ix.(type) {
+	case *ssa.Const:
+		return true
+	case *ssa.BinOp:
+		if _, isConst := x.Y.(*ssa.Const); !isConst || (x.Op != token.SUB && x.Op != token.ADD) {
+			return false
+		}
+		if call, ok := x.X.(*ssa.Call); ok {
+			if bi, ok := call.Call.Value.(*ssa.Builtin); ok && bi.Name() == "len" && slices[call.Call.Args[0]] {
+				return true
+			}
+		}
+	}
+	return false
+}
+
+// entryValueRead: v is (the address of, or a copy of) one workflowKeyVal entry; the instruction that reads its `val`
+// field, following loads, phis, stores into locals and arguments handed to functions of the module.
+func entryValueRead(v ssa.Value, seen map[ssa.Value]bool, depth int) ssa.Instruction {
+	if seen[v] || v.Referrers() == nil || depth > 6 {
+		return nil
+	}
+	seen[v] = true
+	for _, ref := range *v.Referrers() {
+		switch x := ref.(type) {
+		case *ssa.FieldAddr:
+			if x.X == v && fieldAddrName(x) == "workflowKeyVal.val" {
+				return x
+			}
+		case *ssa.Field:
+			if x.X == v && strings.HasSuffix(typeStr(x.X.Type()), "workflowKeyVal") {
+				if st, ok := x.X.Type().Underlying().(*types.Struct); ok && st.Field(x.Field).Name() == "val" {
+					return x
+				}
+			}
+		case *ssa.UnOp:
+			if x.Op == token.MUL {
+				if at := entryValueRead(x, seen, depth); at != nil {
+					return at
+				}
+			}
+		case *ssa.Phi, *ssa.ChangeType:
+			if at := entryValueRead(x.(ssa.Value), seen, depth); at != nil {
+				return at
+			}
+		case *ssa.Store:
+			if x.Val == v {
+				if al, ok := x.Addr.(*ssa.Alloc); ok {
+					if at := entryValueRead(al, seen, depth); at != nil {
+						return at
+					}
+				}
+			}
+		case ssa.CallInstruction:
+			g := staticCallee(x.Common())
+			if g == nil || !inPkgName(g) || len(g.Params) != len(x.Common().Args) {
+				continue
+			}
+			for i, a := range x.Common().Args {
+				if a == v {
+					if at := entryValueRead(g.Params[i], seen, depth+1); at != nil {
+						return at
+					}
+				}
+			}
+		}
+	}
+	return nil
 }
 
 // ---- C12.UNRESOLVED ----
